@@ -35,6 +35,10 @@ var verifC17Src = []string{
 	"select id, last_value(v) over (partition by p order by k rows between 1 following and 2 following) from t",  // 21: frame after the row
 	"select id, row_number() over (partition by p order by k), rank() over (partition by p order by k desc) from t", // 22: two functions, different orders
 	"select id, max(v) over (partition by p order by k rows between 1 preceding and 1 preceding) from t",           // 23
+	"select id, count(v) over (partition by p order by k rows between 1 following and 1 preceding) from t",         // 24: empty frame
+	"select id, max(v) over (partition by p order by k rows between current row and 2 preceding) from t",           // 25: empty frame
+	"select id, count(v) over (partition by p order by k rows 9223372036854775807 preceding) from t",               // 26: offset beyond any partition
+	"select id, first_value(v) over (partition by p order by k rows between 1 following and 9223372036854775807 following) from t", // 27
 }
 
 var verifC17Queries []parser.SelectQuery
@@ -244,6 +248,24 @@ func VerifC17Analytic() {
 				}
 			}
 			verifAssert("LAG IGNORE NULLS", isCell(f))
+		case 24:
+			verifAssert("COUNT over an empty frame", isInt(0))
+		case 25:
+			verifAssert("MAX over an empty frame", isCell(-1))
+		case 26:
+			c := 0
+			for a := 0; a <= pos; a++ {
+				if !vnull[mem[a]] {
+					c++
+				}
+			}
+			verifAssert("COUNT over ROWS <huge> PRECEDING", isInt(int64(c)))
+		case 27:
+			f := -1
+			if pos+1 < m {
+				f = pos + 1
+			}
+			verifAssert("FIRST_VALUE over 1 FOLLOWING..<huge> FOLLOWING", isCell(f))
 		case 20:
 			c := 0
 			for a := pos - 2; a <= pos-1; a++ {
